@@ -290,7 +290,8 @@ class RegqComponent(Component):
         ops = self._ops(case)
         impl = implrun.run_regq(case["reqs"], ops)
         enc_ops = [[Sym("can"), Sym(o[1]), o[2]] if o[0] == "can" else [Sym("deq"), o[1]] for o in ops]
-        return [[[Sym(t), o] for t, o in case["reqs"]], enc_ops], {"ops": ops, "out": impl}
+        iout = [impl[0], [int(x) if isinstance(x, bool) else x for x in impl[1]], impl[2]]
+        return [[[Sym(t), o] for t, o in case["reqs"]], enc_ops, iout], {"ops": ops, "out": impl}
 
     def judge(self, case, impl, res):
         m = jsonable(res["model"][0])
